@@ -306,6 +306,18 @@ func genC26(t *rapid.T) c26Case {
 	}
 	c.Ops = rapid.SliceOfN(opGen, minOps, maxOps).Draw(t, "ops")
 	c.StopAfterLast = rapid.SampledFrom([]int64{0, 0, 1, q, 4 * q, 6 * q}).Draw(t, "stopafter")
+	if !big && rapid.IntRange(0, 5).Draw(t, "stopfault") == 4 {
+		// aimed: events still pending when Stop is called whose shutdown-flush request is
+		// answered 429/503 with a usable Retry-After (and 200 on the retry)
+		n := rapid.IntRange(1, 3).Draw(t, "nstopfault")
+		for i := 0; i < n; i++ {
+			c.Ops = append(c.Ops, c26Op{Op: "enq",
+				Srv: rapid.IntRange(0, c.Servers-1).Draw(t, "sfsrv"), Key: rapid.IntRange(0, 1).Draw(t, "sfkey"), DS: rapid.IntRange(0, 2).Draw(t, "sfds"),
+				A1: &c26Resp{Kind: "status", Code: rapid.SampledFrom([]int{429, 503}).Draw(t, "sfcode"),
+					RA: rapid.SampledFrom([]string{"1", "2", "30", "59", "@30", "@59"}).Draw(t, "sfra")}})
+		}
+		c.StopAfterLast = rapid.SampledFrom([]int64{0, 0, 1, q}).Draw(t, "sfstopafter")
+	}
 	return c
 }
 
@@ -829,6 +841,27 @@ func c26Retryable(r c26Resp) bool {
 	return r.Kind == "timeout" || (r.Kind == "status" && (r.Code == 429 || r.Code == 503))
 }
 
+// c26DefiniteRetryAfter: the answer is a 429/503 whose Retry-After is unambiguous
+// (whole seconds 1..59 or an HTTP date 30/59 s ahead); returns the (approximate) delay.
+func c26DefiniteRetryAfter(r c26Resp) (time.Duration, bool) {
+	if r.Kind != "status" || (r.Code != 429 && r.Code != 503) {
+		return 0, false
+	}
+	switch r.RA {
+	case "1":
+		return time.Second, true
+	case "2":
+		return 2 * time.Second, true
+	case "5":
+		return 5 * time.Second, true
+	case "30", "@30":
+		return 30 * time.Second, true
+	case "59", "@59":
+		return 59 * time.Second, true
+	}
+	return 0, false
+}
+
 func c26Perturbing(r c26Resp) bool {
 	return r.Kind == "timeout" || r.Kind == "slow" || r.Kind == "hangup" || (r.Kind == "status" && (r.Code == 429 || r.Code == 503))
 }
@@ -1041,6 +1074,24 @@ func c26Judge(c c26Case, prep map[int]c26Prepared, obs c26Obs, res *vkit.Result)
 		} else if c26Retryable(first.Resp) {
 			res.Class("not-retried-" + first.Resp.Kind + "-ra=" + first.Resp.RA)
 		}
+		// The retry contract (one more attempt after a 429/503 whose Retry-After is a
+		// plain number of seconds or an HTTP date 0 < delay < 60 s away) holds no matter
+		// whether Stop has been called: a shutdown flushes pending batches like any other dispatch.
+		if delay, ok := c26DefiniteRetryAfter(first.Resp); ok {
+			phase := "before-stop"
+			switch {
+			case first.Seq >= obs.nReqAtStop:
+				phase = "shutdown-flush"
+				res.Class("delaying-answer-to-a-shutdown-flush-request")
+			case first.At+delay > obs.stopCalled:
+				phase = "in-retry-after-wait-when-stop-was-called"
+				res.Class("stop-called-during-a-retry-after-wait")
+			}
+			if len(g.reqs) < 2 {
+				res.Violate("C26/retry/usable-retry-after-not-retried/"+phase, "batch %v to srv%d was answered %d with Retry-After %q at %v and never sent again (Stop called at %v, returned at %v)",
+					first.IDs, first.Srv, first.Resp.Code, first.Resp.RA, first.At, obs.stopCalled, obs.stopReturn)
+			}
+		}
 		minEnq := time.Duration(math.MaxInt64)
 		for _, id := range first.IDs {
 			if at, ok := obs.enqAt[id]; ok && at < minEnq {
@@ -1152,7 +1203,7 @@ func TestC26(t *testing.T) {
 			"the 5 MB limit is judged on the uncompressed request body; a compressed wire body is only classified",
 			"a batch's dispatch instant is the arrival of its first attempt; requests to a destination that was answered with a scripted delay/429/503/time-out are excused from the timing bound (sub-batches of one dispatch are sent sequentially)",
 			"when at least 400 requests of a case received a delaying answer (about as many as refinery has senders, 500) a flushed batch may have waited for a free sender: the timing bound is not judged for that case (aimed shape \"saturated sender pool\", 1 case in 50 + a hand-kept replay)",
-			"a second attempt is accepted only after 429/503/time-out (or a hang-up, don't-care); the converse (that a retry happens) is not asserted",
+			"a second attempt is accepted only after 429/503/time-out (or a hang-up, don't-care); that a retry happens is asserted only for a first attempt answered 429/503 with an unambiguous Retry-After (whole seconds 1..59 or an HTTP date 30/59 s ahead), before, during and after Stop alike",
 			"scripted-fault histories enqueue from a single goroutine; 1 case in 8 is the concurrent shape: 2-8 real goroutines, released together by a spin barrier inside the injected Clock.Now() (called by EnqueueEvent right before the batch lookup), enqueue the first events of fresh destinations; only the final accounting after Stop is judged there",
 		},
 		Gen:  genC26,
